@@ -178,6 +178,15 @@ class HarnessGen:
                 L.append('  %s;' % t.decl(nm, keep_const=False))
                 self.fill(nm, t)
                 args.append(nm)
+        # scalar-only preconditions first: they fix buffer lengths before anything is allocated
+        ptr_names = [nm for nm, t, isref in info['params'] if nm in bufs or isref or nm in refs or t.is_ptr()]
+        early = set()
+        for r in spec.get('requires', []):
+            if '__CPROVER_is_fresh' in r:
+                continue
+            if not any(re.search(r'\b%s\b' % re.escape(pn), r) for pn in ptr_names):
+                L.append('  __CPROVER_assume(%s);' % deimply(r))
+                early.add(r)
         for nm, t in later:
             et = t.deref()
             cnt = bufs[nm]
@@ -189,7 +198,7 @@ class HarnessGen:
         for s in spec.get('harness_setup', []):
             L.append('  ' + s)
         for r in spec.get('requires', []):
-            if '__CPROVER_is_fresh' in r:
+            if '__CPROVER_is_fresh' in r or r in early:
                 continue
             L.append('  __CPROVER_assume(%s);' % deimply(r))
         ens, olds = find_olds([deimply(e) for e in spec.get('ensures', [])])
